@@ -112,8 +112,11 @@ def _rowwise_check(a):
                         "rotation_deg": a.get("rot_deg", 0.0), "signature": "inside-no-go/" + ("row-through-a-zone-vertex" if through_vertex else "generic")}
         return None
 
+    # "inside or on the outline" up to 1e-6 m per metre of lot extent (at least 1e-6 m): positions are computed from intersections of lines through points up to that far away
+    tol_out = 1e-6 * max(1.0, max(max(q[0] for q in pts) - min(q[0] for q in pts), max(q[1] for q in pts) - min(q[1] for q in pts)))
+
     def outline_clause(fld, what):
-        bad_ = [(p, _inside_convex(pts, p, 1e-6)[1]) for p in fld if not _inside_convex(pts, p, 1e-6)[0]]
+        bad_ = [(p, _inside_convex(pts, p, tol_out)[1]) for p in fld if not _inside_convex(pts, p, tol_out)[0]]
         if bad_:
             return {"why": f"{what}: borehole outside the outline", "point": bad_[0][0], "distance_outside": -bad_[0][1], "outline": pts, "rotation_deg": a.get("rot_deg", 0.0),
                     "signature": "outside-outline" + ("/perimeter" if "perimeter" in what else "")}
@@ -141,7 +144,7 @@ def _rowwise_check(a):
             return False, {"why": f"gen_borehole_config did not terminate within {budget} s of CPU time", "outline": pts, "spacing": s, "rotation_deg": a.get("rot_deg", 0.0),
                            "signature": "no-termination/" + field}
         field = [list(map(float, p)) for p in field]
-        bad = [(p, _inside_convex(pts, p, 1e-6)[1]) for p in field if not _inside_convex(pts, p, 1e-6)[0]]
+        bad = [(p, _inside_convex(pts, p, tol_out)[1]) for p in field if not _inside_convex(pts, p, tol_out)[0]]
         if bad:
             return False, {"why": "borehole outside the outline", "point": bad[0][0], "distance_outside": -bad[0][1], "outline": pts, "rotation_deg": a.get("rot_deg", 0.0), "signature": "outside-outline"}
         if nogo:
@@ -341,8 +344,9 @@ def _rowwise_gen(rng):
         if width < 2 * a["spacing"]:
             a["spacing"] = 5.0
             if width < 10.0:
+                # a sliver: widen it to 12 m - unless that makes the lot kilometres long, then take a plain triangle instead
                 f = 12.0 / max(width, 1e-6)
-                a["pts"] = [[p[0] * f, p[1] * f] for p in a["pts"]]
+                a["pts"] = [[p[0] * f, p[1] * f] for p in a["pts"]] if f <= 4.0 else [[0.0, 0.0], [90.0, 10.0], [30.0, 70.0]]
     if rng.random() < 0.15:
         a["sweep"] = [rng.choice([5.0, 15.0]), -90.0, 90.0]
     if rng.random() < 0.3:
@@ -356,7 +360,7 @@ def _rowwise_gen(rng):
 
 native(f"{RW}:gen_borehole_config", _rowwise_check, _rowwise_gen, None,
        bound="real gen_borehole_config / field_optimization_fr on convex outlines with 3..12 vertices (rectangles, regular polygons, random sheared convex polygons; both orientations; touching one or both axes or "
-             "shifted), spacings 5..25 m, rotations -90..89.5 deg, sweeps of 5/15 deg: termination (8 s CPU per call; a terminating call takes under 0.2 s), inside the outline (1e-6 m), spacing, rectangle lattice count, translation covariance, densest rotation; in about a third of the cases a convex no-go zone (the outline shrunk about its centroid by 0.25-0.5): no borehole inside it, also for the perimeter generator two_space_gen_bhc (ratios 0.6-1.0) and for both optimisers called with the zones right after the same sweep without them")
+             "shifted), spacings 5..25 m, rotations -90..89.5 deg, sweeps of 5/15 deg: termination (8 s CPU per call; a terminating call takes under 0.2 s), inside the outline (1e-6 m per metre of lot extent), spacing, rectangle lattice count, translation covariance, densest rotation; in about a third of the cases a convex no-go zone (the outline shrunk about its centroid by 0.25-0.5): no borehole inside it, also for the perimeter generator two_space_gen_bhc (ratios 0.6-1.0) and for both optimisers called with the zones right after the same sweep without them")
 
 
 # ---- deductive part: the rotation sweep (field generator abstract) and leaf helpers ---------------------------------------------------------------
